@@ -91,9 +91,9 @@ def links(Kx, Ky, N, charts, per_x, per_y):
     return table
 
 
-def random_decomposition(rng, max_faces=4, rotations_only=False):
+def random_decomposition(rng, max_faces=4, rotations_only=False, pool=None):
     """Rejection-sample orientations until every junction is expressible."""
-    names = ["id", "r90", "r180", "r270"] if rotations_only else list(ORIENT)
+    names = pool or (["id", "r90", "r180", "r270"] if rotations_only else list(ORIENT))
     for _ in range(2000):
         Kx, Ky = rng.choice([(1, 1), (2, 1), (1, 2), (2, 2), (3, 1), (1, 3), (3, 2), (2, 3)])
         if Kx * Ky > max_faces:
